@@ -100,6 +100,20 @@ def run(ctx):
             ctx.check(has_call(a0, 'core::mcs::Client::<S>::get_user_id') and has_call(a1, 'core::mcs::Client::<S>::get_global_channel_id'),
                       'R03.5', 'connector:ids', 'the global channel is created with the user id and channel id obtained from MCS', cc.where(),
                       'Connector::connect does not hand the MCS-assigned user id / global channel id to the global channel')
+            # ... and each lands in the field of that meaning: the constructor stores parameter 1 as user_id and parameter 2 as channel_id
+            gb = ctx.body('core::global::Client::new')
+            wiring = {}
+            for gp, gst in feasible_paths(gb, P, limit=1000):
+                rv = strip(resolve(gst, gst.env.get(0)))
+                if rv[0] == 'agg' and len(rv) > 4:
+                    for fname, fe in zip(rv[4], rv[3]):
+                        fe = unwrap_cast(fe)
+                        if fe[0] == 'param':
+                            wiring[fname] = fe[1]
+            ctx.check(wiring.get('user_id') == 1 and wiring.get('channel_id') == 2, 'R03.5', 'global:new_wiring',
+                      'global::Client::new stores its first argument (the MCS user id) as user_id and its second (the global channel id) as channel_id', gb.where(),
+                      'global::Client::new stores its arguments as %s: the caller passes (user id, channel id), so PDUs would carry the channel id as their source and '
+                      'the user id as their target' % {k: v for k, v in wiring.items() if k in ('user_id', 'channel_id')})
 
     # ---- R03.2 mcs::Client::connect -----------------------------------------------------------------------
     mc = ctx.body('core::mcs::Client::<S>::connect')
